@@ -1431,7 +1431,7 @@ class C10Oracle(Oracle):
 # ========================================================================================
 RO_OPS = ["export_csv", "export_csv_colors", "export_csv_display", "export_csv_subset", "export_csv_seg", "export_geff",
           "export_geff_subset", "export_geff_v3", "save_tracks", "queries_track", "queries_graph",
-          "queries_attrs", "deprecated_export_tracks"]
+          "queries_attrs", "deprecated_export_tracks", "export_csv_track", "export_geff_track"]
 
 
 class C16Oracle(Oracle):
@@ -1496,6 +1496,19 @@ class C16Oracle(Oracle):
             export_to_geff(tr, tmp / "g")
         elif name == "export_geff_subset":
             export_to_geff(tr, tmp / "g", node_ids=subset)
+        elif name in ("export_csv_track", "export_geff_track"):
+            # "export this track": the selection is the list the tracks hand out for a track id
+            # (or a lineage), passed on as it is
+            lookups = [tr.track_id_to_node] + ([tr.track_annotator.lineage_id_to_nodes] if op["t"] % 2 else [])
+            lookup = lookups[-1]
+            keys = sorted(lookup, key=repr)
+            if not keys:
+                return
+            sel = lookup[keys[op["tid"] % len(keys)]]
+            if name == "export_csv_track":
+                export_to_csv(tr, tmp / "a.csv", node_ids=sel)
+            else:
+                export_to_geff(tr, tmp / "g", node_ids=sel)
         elif name == "export_geff_v3":
             export_to_geff(tr, tmp / "g", zarr_format=3)
         elif name == "save_tracks":
